@@ -22,6 +22,7 @@ import Martian.VdrVal
 import Proofs.VdrVal
 import Martian.VdrAll
 import Proofs.VdrAll
+import Proofs.VdrDone
 
 namespace Props.C04
 open Martian.Vdr
@@ -283,6 +284,41 @@ theorem notfile_value_names_nothing (v : Val) (t : Ty) (hc : conforms v t = true
 theorem clone_keeps_holders (s : St) (disk : List DiskEnt) :
     (∀ a h, Holds (cloneFork s disk) a h ↔ Holds s a h) ∧ Fresh (cloneFork s disk) :=
   ⟨fun a h => cloneFork_holds s disk a h, ⟨rfl, rfl⟩⟩
+
+/-! ### consumers that fail and are retried -/
+
+/-- A consumer counts as done only through its completion (`nodeDone`: the
+post node is found Complete or Disabled): no pass of the producer, no failure
+of the consumer (`nodeFailed`) and no reset for a retry (`nodeReset`) adds it
+to the done set `partialVdrKill` consults. -/
+theorem done_only_by_completion (c : Cfg) (s0 : St) (evs : List Ev) :
+    ∀ n ∈ (run c s0 evs).doneNodes, n ∈ s0.doneNodes ∨ Ev.nodeDone n ∈ evs :=
+  run_done c s0 evs
+
+/-- **failed_consumer_keeps_inputs.**  Under every interleaving in which
+consumer `n` has not completed — however often it has failed and been reset
+for a retry in between, and whatever else completed meanwhile — everything
+its argument `a` references is still on disk: the retried job finds its
+files at every launch. -/
+theorem failed_consumer_keeps_inputs (c : Cfg) (s0 : St) (evs : List Ev) (ok : CfgOK c s0) (fr : Fresh s0)
+    (hv : c.volatile = true) (a : Arg) (n : Node) (hh : Holds s0 a (some n))
+    (h0 : n ∉ s0.doneNodes) (hnot : Ev.nodeDone n ∉ evs) :
+    ∀ d ∈ s0.disk, isTmp d.kind = false → refs c a d.path = true → d ∈ (run c s0 evs).disk := by
+  apply args_present_at_start c s0 evs ok fr hv a n hh
+  intro hn
+  rcases run_done c s0 evs n hn with h | h
+  · exact h0 h
+  · exact hnot h
+
+/-- Counting a failed post node as done (the shape of a seeded change) is
+unsafe: had the failure of `C` released its arguments the way a completion
+does, `b`'s file would be gone when `C` is retried; in the model it stays. -/
+theorem failure_is_not_completion :
+    ((run exCfg exSt [.removeEmpty, .cacheMap, .nodeFailed "C", .kill, .nodeReset "C", .kill]).disk.map (·.path) =
+      ["/p/files/a.txt".toList, "/p/files/sub".toList, "/p/files/sub/b.txt".toList]) ∧
+    ((run exCfg exSt [.removeEmpty, .cacheMap, .nodeDone "C", .kill]).disk.map (·.path) =
+      ["/p/files/a.txt".toList]) := by
+  constructor <;> decide
 
 /-! ### the whole pipestance -/
 
